@@ -8,19 +8,20 @@ import (
 )
 
 // Value is one of:
-//   *Term      scalar (Bool, or bit-vector for every integer kind)
-//   string     Go string (always concrete)
-//   float64    concrete float (rare)
-//   Ptr        pointer
-//   SliceV     slice header (arr may be nil)
-//   *StructV   struct value (value semantics: copied on load/store)
-//   *ArrObj    array value when it appears as a Value (inline [N]T; value semantics)
-//   *MapObj    map (reference; nil pointer = nil map)
-//   *ChanObj   channel
-//   IfaceV     interface value
-//   *ClosureV  function value
-//   TupleV     multiple results
-//   *RangeIter iterator for ssa.Range
+//
+//	*Term      scalar (Bool, or bit-vector for every integer kind)
+//	string     Go string (always concrete)
+//	float64    concrete float (rare)
+//	Ptr        pointer
+//	SliceV     slice header (arr may be nil)
+//	*StructV   struct value (value semantics: copied on load/store)
+//	*ArrObj    array value when it appears as a Value (inline [N]T; value semantics)
+//	*MapObj    map (reference; nil pointer = nil map)
+//	*ChanObj   channel
+//	IfaceV     interface value
+//	*ClosureV  function value
+//	TupleV     multiple results
+//	*RangeIter iterator for ssa.Range
 type Value interface{}
 
 type StructV struct {
@@ -94,7 +95,6 @@ type RangeIter struct {
 	pos int
 	s   string
 }
-
 
 func basicWidth(b *types.Basic) (w int, signed bool, ok bool) {
 	switch b.Kind() {
@@ -277,7 +277,7 @@ func (ex *Exec) arrRead(a *ArrObj, idx *Term) Value {
 		ex.violation("pool/use-after-put", fmt.Sprintf("read of recycled pool buffer #%d (got at %s)", a.id, a.getSite), nil)
 	}
 	if ex.monitor != nil && ex.monitorOn {
-		ex.monitorObj(a, false, ex.curSite())
+		ex.monitorArr(a, idx, false, ex.curSite())
 	}
 	if idx.IsConst() {
 		i := int(idx.val)
@@ -315,7 +315,7 @@ func (ex *Exec) arrWrite(a *ArrObj, idx *Term, v Value) {
 	}
 	ex.noteWriteArr(a)
 	if ex.monitor != nil && ex.monitorOn {
-		ex.monitorObj(a, true, ex.curSite())
+		ex.monitorArr(a, idx, true, ex.curSite())
 	}
 	if !idx.IsConst() {
 		if a.w >= 0 && len(a.elems) <= 64 {
